@@ -54,6 +54,15 @@ def hostile_texts(rng, tier):
             else:
                 t[i:i] = t[i:i + 1 + r.below(5)]
         out.append(('mutated', bytes(t)))
+    # a comment directly before every item form, followed by every kind of continuation (annotation hand-over paths)
+    items = [b'i = 1', b'il = 5', b'il += 6', b'il = {1, 2}', b'il = {1, 2,}', b'il = {}', b'sl = "x"', b'sl += y', b'sec { a = 1 }', b'sec { l = z }',
+             b'sec { l += z }', b't "x" { l = q }', b'fn(a)', b'kv { k = v }', b'm { in "y" { s = w } }', b'b = on', b's = "v"']
+    for it in items:
+        for cm in (b'/* c */ ', b'# c\n', b'// c\n'):
+            for tail in (b'', b'\n/* d */ i = 2\n', b'\n}', b'\nbogus', b'\n# e\n', b' /* f */'):
+                out.append(('annotated', cm + it + tail))
+                if it.startswith(b'sec {') or it.startswith(b't '):
+                    out.append(('annotated', it.replace(b'{ ', b'{ ' + cm, 1) + tail))
     # pathological shapes
     big = 20000 if tier == 'quick' else 300000
     out += [('deep-known', b'sec { in x { ' * 3 + b'}' * 5),
@@ -87,7 +96,8 @@ def generate(rng, tier):
     n = 0
     texts = hostile_texts(rng, tier)
     for k, (kind, text) in enumerate(texts):
-        for cfgno in ([k % 4] if kind in ('cut', 'mutated', 'random', 'random-ascii') and tier == 'quick' else range(4)):
+        for cfgno in ([2 + k % 2] if kind == 'annotated' and tier == 'quick' else
+                      [k % 4] if kind in ('cut', 'mutated', 'random', 'random-ascii') and tier == 'quick' else range(4)):
             how = ('buf', 'file', 'fp')[(k + cfgno) % 3] if b'\0' not in text else ('file', 'fp')[k % 2]
             n += 1
             yield scenario('h%d-%s' % (n, kind), cfgno, kind, text, how)
